@@ -164,32 +164,39 @@ def _apply(side, step, n):
     sut.settle()
 
 
-def _explicit_end(steps, upto):
-    """Did the client or the application do anything up to step ``upto`` that ends a session by a transport close/error
-    (as opposed to silence)?"""
-    return any(st in ('ws-drop', 'upgrade-close-after-probe', 'post-type7', 'post-garbage') for st in steps[:upto + 1])
-
-
 def _differential(a, b, c, d, n):
     steps = [STEPS[x] for x in (a, b, c, d)[:n]]
     T, A = _Side(0), _Side(1)
+    SIL = ('ping timeout', 'transport close', 'transport error')
     try:
-        silence = {}
+        past_bound = {}
+        silent = ({}, {})           # per side: sessions whose disconnect event appeared DURING a clock-advance step
+        seen_disc = (set(), set())
         for i, step in enumerate(['open-polling'] + steps):
             _apply(T, step, i)
             _apply(A, step, i)
             if step == 'advance-past-bound':
                 for j in range(len(T.sut.sids())):
-                    silence[j] = True
-            ot, oa = T.observe(silence), A.observe(silence)
-            # a session that one side has already ended for SILENCE (heartbeat timeout, read timeout) while the bound has
-            # not yet passed is skipped at this observation point: both sides only have to end it within the bound
-            skip = set()
-            for o in (ot, oa):
+                    past_bound[j] = True
+            ot, oa = T.observe({}), A.observe({})
+            for side, o in enumerate((ot, oa)):
                 for j, evs in o['events'].items():
-                    if any(k == 'disconnect' and a in ('ping timeout', 'transport close', 'transport error') for k, a in evs) \
-                            and not silence.get(j) and not _explicit_end(['open-polling'] + steps, i):
-                        skip.add(j)
+                    if any(k == 'disconnect' for k, a_ in evs) and j not in seen_disc[side]:
+                        seen_disc[side].add(j)
+                        if step.startswith('advance') and any(k == 'disconnect' and a_ in SIL for k, a_ in evs):
+                            silent[side][j] = True
+            # ends caused by silence: both sides only have to end the session within the heartbeat bound, and the
+            # reason is not compared. A session that one side has ended for silence and the other not yet is skipped
+            # at this observation point unless the bound has passed.
+            skip = set()
+            for j in set(silent[0]) | set(silent[1]):
+                both = j in seen_disc[0] and j in seen_disc[1]
+                if not both and not past_bound.get(j):
+                    skip.add(j)
+                elif both:
+                    for o in (ot, oa):
+                        # (the other side's end then races against its own silence detection: its reason is not compared either)
+                        o['events'][j] = [(k, 'SILENCE' if k == 'disconnect' else a_) for k, a_ in o['events'].get(j, [])]
             for key in ('events', 'transport', 'messages', 'status', 'other_packets'):
                 x, y = ot[key], oa[key]
                 if key != 'status' and skip:
@@ -201,6 +208,8 @@ def _differential(a, b, c, d, n):
                     cur = '%d:' % i
                     pairs = [(p, q) for p, q in zip(ot[key], oa[key]) if p[0].startswith(cur) and 'F6' not in (p[1], q[1])
                              and 'ws' not in (p[1], q[1])]
+                    if skip:
+                        pairs = []      # a request naming a session that only one side has already ended for silence
                     x, y = [p for p, q in pairs], [q for p, q in pairs]
                 if x != y:
                     return fail(PROP, 'DIVERGENCE-' + key.upper(), 'after step %d of %r: threaded %r / asyncio %r' % (
